@@ -85,24 +85,19 @@ def main():
                 if os.path.isdir("/verif/checker/controls"):
                     pass
 
-                def run(p):
-                    env = dict(ENV, IONLINT_VERIF=evdir, IONLINT_NOCONTROLS="1")
-                    pr = subprocess.run(["/verif/bin/ionlint", "-property", p, "-tier", "quick"], cwd="/verif", env=env, stdout=subprocess.PIPE, stderr=subprocess.STDOUT, text=True)
+                env = dict(ENV, IONLINT_VERIF=evdir)
+                pr = subprocess.run(["/verif/bin/ionlint", "-all", "-tier", "quick"], cwd="/verif", env=env, stdout=subprocess.PIPE, stderr=subprocess.STDOUT, text=True)
+                codes = dict(re.findall(r"== (C\d\d) exit (\d)", pr.stdout))
+                for p in props:
+                    code = int(codes.get(p, "2"))
                     viol = []
                     vf = f"{evdir}/evidence/{p}.violations.json"
-                    if pr.returncode == 1 and os.path.exists(vf):
-                        try:
-                            for v in json.load(open(vf)).get("violations", []):
-                                viol.append({"rule": v.get("rule"), "key": v.get("key"), "pos": v.get("pos"), "detail": (v.get("detail") or "")[:300]})
-                        except Exception as e:
-                            viol.append({"error": str(e)})
-                    return p, pr.returncode, viol, pr.stdout[-600:] if pr.returncode not in (0, 1) else ""
-
-                with concurrent.futures.ThreadPoolExecutor(8) as ex:
-                    for p, code, viol, tail in ex.map(run, props):
-                        det[p] = {"exit": code, "violations": viol}
-                        if tail:
-                            det[p]["tail"] = tail
+                    if code == 1 and os.path.exists(vf):
+                        for v in json.load(open(vf)).get("violations", []):
+                            viol.append({"rule": v.get("rule"), "key": v.get("key"), "pos": v.get("pos"), "detail": (v.get("detail") or "")[:300]})
+                    det[p] = {"exit": code, "violations": viol}
+                    if code not in (0, 1):
+                        det[p]["tail"] = pr.stdout[-400:]
                 shutil.rmtree(evdir, ignore_errors=True)
         finally:
             sh("git checkout -- .", "/repo")
@@ -127,7 +122,7 @@ def main():
         m["breaks_property"] = pid
         m["demo"] = {"file": "demo_test.go", "package_dir": pkgdir, "test": test, "run": f"copy demo_test.go into {pkgdir}/ of a worktree with patch.diff applied; go test -vet=off -count=1{race} -run '^{test}$' ./{pkgdir}/"}
         m["confirmed_by_main_session"] = {x: res[x] for x in ["applies", "only_non_test_source", "builds_and_vets", "baseline", "baseline_ok", "demo_fails_with_patch", "demo_passes_without_patch"]}
-        m["checks_run"] = "every claimed property's quick check against /repo with patch.diff applied (git apply; checks; git checkout -- .)"
+        m["checks_run"] = "the rules of every claimed property (ionlint -all -tier quick: one load, the same rules as the 20 quick commands, controls off) against /repo with patch.diff applied (git apply; checks; git checkout -- .)"
         m["caught_by"] = caught_by
         m["caught_by_target_property"] = pid in caught_by
         m["reported"] = {p: det[p]["violations"][:6] for p in caught_by}
